@@ -302,7 +302,21 @@ def shard_main(argv):
     npinned = len(getattr(mod, "PINNED", [])) + (len(getattr(mod, "DATASET_CASES", [])) if tier == "thorough" else 0)
     idx = [-(j + 1) for j in range(npinned) if j % nshards == shard]
     idx += list(range(shard, ncases, nshards))
+    cov = None
+    if os.environ.get("VF_COVERAGE_DIR"):
+        # optional (tools/coverage_report.sh): which lines of the library the workloads of this check actually executed
+        try:
+            import coverage
+
+            from . import env as _env
+            cov = coverage.Coverage(data_file=os.path.join(os.environ["VF_COVERAGE_DIR"], ".coverage.%s.%d" % (pid, shard)), include=[os.path.join(_env.REPO, "graphslam", "*")])
+            cov.start()
+        except Exception:  # noqa: BLE001
+            cov = None
     run_cases(mod, ctx, idx, soft_deadline=time.time() + soft_s)
+    if cov is not None:
+        cov.stop()
+        cov.save()
     with open(out, "w") as f:
         json.dump(ctx.result(), f)
     return 0
